@@ -422,5 +422,6 @@ func verifC08Store(nOps int) {
 func VerifH_C08_store2() { verifC08Store(2) }
 func VerifH_C08_store3() { verifC08Store(3) }
 
-func VerifH_C07_chainV3() { verifC07(1, 3, 6, 1) }
-func VerifH_C07_lcgV3()   { verifC07(4, 3, 6, 7) }
+func VerifH_C07_chainV3()  { verifC07(1, 3, 6, 1) }
+func VerifH_C07_sparseV3() { verifC07(11, 3, 0, 1) }
+func VerifH_C07_lcgV3()    { verifC07(4, 3, 6, 7) }
